@@ -250,6 +250,7 @@ fn run_ops(case: &str) -> (String, String, String) {
                             1 => "return 3",
                             2 => "exit 4",
                             3 => "false",
+                            4 => ": ${U?}",
                             _ => "st 7",
                         };
                         Action::Command(format!("probe {n}; {tail}").into())
@@ -429,14 +430,30 @@ fn run_ops(case: &str) -> (String, String, String) {
                     }
                 }
             }
-            ["run", e] => {
+            ["run", e] | ["irun", _, e] => {
                 let Ok(e) = e.parse::<i32>() else { return bad() };
+                let mut raised: Option<Number> = None;
+                if let ["irun", sname, _] = ws.as_slice() {
+                    // send the signal first (unless that would kill the process); the runner polls itself
+                    let Some(n) = sig_of(sname) else { return bad() };
+                    if n == SIGKILL || n == SIGSTOP {
+                        return bad();
+                    }
+                    if w.disp(n) != Disposition::Default {
+                        let _ = w.vs.current_process_mut().raise_signal(n);
+                        if w.disp(n) == Disposition::Catch {
+                            raised = Some(n);
+                        }
+                    }
+                }
                 // which command traps are pending now (read through the public view)
                 let due: Vec<String> = CONDS
                     .iter()
                     .filter_map(|c| c.1)
                     .filter_map(|n| match w.env.traps.get_state(n).0 {
                         Some(TrapState { action: Action::Command(_), pending: true, .. }) => Some(name_of(n)),
+                        // the signal just sent is due as well (it will be collected by the runner's poll)
+                        Some(TrapState { action: Action::Command(_), .. }) if raised == Some(n) => Some(name_of(n)),
                         _ => None,
                     })
                     .collect();
@@ -644,7 +661,7 @@ fn run_multi_case(ws: &[&str]) -> (String, String) {
     for w in &ws[3..] {
         let Some((s, k)) = w.split_once(':') else { return bad() };
         let Some(n) = sig_of(s) else { return bad() };
-        if !["P", "R", "E", "F", "N"].contains(&k) {
+        if !["P", "R", "E", "F", "N", "I"].contains(&k) {
             return bad();
         }
         sks.push((s, n, k));
@@ -657,6 +674,7 @@ fn run_multi_case(ws: &[&str]) -> (String, String) {
             "R" => format!("probe {tag}; return 3"),
             "E" => format!("probe {tag}; exit 4"),
             "F" => format!("probe {tag}; false"),
+            "I" => format!("probe {tag}; : ${{U?}}"),
             _ => format!("probe {tag}; trap \"probe {}\" {name}", tag + 500),
         };
         script.push_str(&format!("trap '{act}' {name}\n"));
@@ -1004,6 +1022,9 @@ fn alphabet(f: &str) -> Vec<String> {
         ops.push(format!("deliver {f}"));
     }
     ops.push("run 5".into());
+    if f != "KILL" && f != "STOP" {
+        ops.push(format!("irun {f} 4"));
+    }
     ops
 }
 
@@ -1016,7 +1037,7 @@ fn random_op(r: &mut Rng, sigs: &[&str]) -> String {
                 0 => "d".to_string(),
                 1 => "i".to_string(),
                 2 => format!("c{}", 1 + r.below(3)),
-                _ => format!("c{}", 1000 * r.below(4) + 1 + r.below(3)),
+                _ => format!("c{}", 1000 * r.below(5) + 1 + r.below(3)),
             };
             format!("set {c} {a} {}", if r.chance(1, 4) { 1 } else { 0 })
         }
@@ -1031,6 +1052,7 @@ fn random_op(r: &mut Rng, sigs: &[&str]) -> String {
         16 => format!("takeif {s}"),
         17 | 18 if s != "KILL" && s != "STOP" => format!("deliver {s}"),
         17 | 18 => format!("catch {s}"),
+        _ if r.chance(1, 3) => format!("irun {s} {}", r.below(4)).replace("KILL", "INT").replace("STOP", "INT"),
         _ => format!("run {}", r.below(4)),
     }
 }
@@ -1136,7 +1158,7 @@ fn main() {
     //    2-3 distinct signals, every assignment of body kinds (plain / return / exit / false),
     //    deliveries in the opposite order, then three boundaries
     let pool = ["INT", "TERM", "USR1", "CHLD"];
-    let kinds = [0usize, 1, 2, 3];
+    let kinds = [0usize, 1, 2, 3, 4];
     let mut choices: Vec<Vec<&str>> = vec![];
     for a in pool {
         for b in pool {
@@ -1162,8 +1184,8 @@ fn main() {
             let mut parts: Vec<String> = vec![];
             let mut c = code;
             for (i, s) in sigs.iter().enumerate() {
-                parts.push(format!("set {s} c{} 0", 1000 * kinds[c % 4] + i + 1));
-                c /= 4;
+                parts.push(format!("set {s} c{} 0", 1000 * kinds[c % 5] + i + 1));
+                c /= 5;
             }
             for s in sigs.iter().rev() {
                 parts.push(format!("deliver {s}"));
@@ -1178,7 +1200,7 @@ fn main() {
     // 5. the same at script level: traps that return / exit / fail / redefine themselves, signals
     //    sent together inside a function, a nested group or a dot script, by a built-in or from a
     //    foreground subshell, optionally delivered a second time
-    let ks = ["P", "R", "E", "F", "N"];
+    let ks = ["P", "R", "E", "F", "N", "I"];
     let subsets: Vec<Vec<&str>> =
         vec![vec!["INT", "USR1"], vec!["USR1", "TERM"], vec!["TERM", "INT"], vec!["USR1", "INT", "TERM"]];
     let mut count = 0usize;
@@ -1197,8 +1219,8 @@ fn main() {
                         let mut c = code;
                         let mut sk: Vec<String> = vec![];
                         for s in sigs {
-                            sk.push(format!("{s}:{}", ks[c % 5]));
-                            c /= 5;
+                            sk.push(format!("{s}:{}", ks[c % 6]));
+                            c /= 6;
                         }
                         let case = format!("multi {layout} {mode} {second} {}", sk.join(" "));
                         let (obs, oracle, _) = run_guarded(&case);
@@ -1318,6 +1340,12 @@ fn main() {
                 _ => simple(&mut r),
             };
             parts.push(st);
+        }
+        if let Some(i) = parts.iter().position(|p| p.starts_with("W ")) {
+            // keep the restrictions of `W` (see run_tb_case)
+            let mut kept: Vec<String> = parts[..=i].to_vec();
+            kept.extend(parts[i + 1..].iter().filter(|p| !["sub ", "cs ", "bg ", "W "].iter().any(|k| p.starts_with(k))).cloned());
+            parts = kept.iter().map(|p| p.replace("CHLD", "HUP")).collect();
         }
         emit_tb(format!("tb {}", parts.join("; ")), &mut out);
     }
